@@ -10,6 +10,7 @@ import (
 	"go/constant"
 	"go/token"
 	"go/types"
+	"os"
 	"sort"
 	"strings"
 
@@ -710,6 +711,494 @@ func hasDepthGuard(p *Program, comp []*ssa.Function) (bool, string) {
 	return false, ""
 }
 
+// hasDepthParam: the recursion carries its depth as an int parameter.  Edges of
+// the component that cannot be taken are removed first — an interface call in
+// a branch where a type switch has ruled the component's receiver types out, or
+// on a hash key, which is never an array or a hash — and in what remains every
+// cycle must pass a function that compares its depth parameter with a constant
+// and stops, with every call handing the depth on (plus at least one from such
+// a function).
+func hasDepthParam(p *Program, comp []*ssa.Function) (bool, string) {
+	in := map[*ssa.Function]bool{}
+	for _, f := range comp {
+		in[f] = true
+	}
+	cg := p.CallGraph()
+	lib := map[*ssa.Function]bool{}
+	for _, fn := range p.LibFns {
+		lib[fn] = true
+	}
+	type edge struct {
+		to   *ssa.Function
+		site ssa.CallInstruction // nil when the call goes through the standard library
+	}
+	edges := map[*ssa.Function][]edge{}
+	for _, f := range comp {
+		n := cg.Nodes[f]
+		if n == nil {
+			continue
+		}
+		for _, e := range n.Out {
+			c := e.Callee.Func
+			if lib[c] {
+				if !in[c] {
+					continue
+				}
+				if e.Site != nil && e.Site.Common().IsInvoke() && c.Signature.Recv() != nil {
+					v := e.Site.Common().Value
+					if typeRuledOut(v, e.Site.Block(), c.Signature.Recv().Type()) || hashKeyNever(p, v, c.Signature.Recv().Type()) {
+						continue
+					}
+				}
+				edges[f] = append(edges[f], edge{c, e.Site})
+				continue
+			}
+			// through the standard library (sort callbacks …)
+			seen := map[*callgraph.Node]bool{}
+			var expand func(n *callgraph.Node, d int)
+			expand = func(n *callgraph.Node, d int) {
+				if seen[n] || d > 6 {
+					return
+				}
+				seen[n] = true
+				for _, e2 := range n.Out {
+					c2 := e2.Callee.Func
+					if lib[c2] {
+						if in[c2] {
+							edges[f] = append(edges[f], edge{c2, nil})
+						}
+					} else {
+						expand(e2.Callee, d+1)
+					}
+				}
+			}
+			expand(e.Callee, 0)
+		}
+	}
+	// functions with a bounded depth parameter
+	bounded := map[*ssa.Function]int{}
+	for _, f := range comp {
+		for i, prm := range f.Params {
+			if !isInt(prm.Type()) || prm.Referrers() == nil {
+				continue
+			}
+			for _, ref := range *prm.Referrers() {
+				bo, ok := ref.(*ssa.BinOp)
+				if !ok || (bo.Op != token.GTR && bo.Op != token.GEQ) || bo.X != ssa.Value(prm) {
+					continue
+				}
+				if _, isConst := constInt(bo.Y); !isConst {
+					continue
+				}
+				for _, r2 := range *bo.Referrers() {
+					iff, ok := r2.(*ssa.If)
+					if !ok {
+						continue
+					}
+					stop := iff.Block().Succs[0]
+					if _, ok := terminator(stop).(*ssa.Return); ok {
+						rec := false
+						for _, ins := range stop.Instrs {
+							if cc := callOf(ins); cc != nil && cc.StaticCallee() != nil && in[cc.StaticCallee()] {
+								rec = true
+							}
+						}
+						if !rec {
+							bounded[f] = i
+						}
+					}
+				}
+			}
+		}
+	}
+	if os.Getenv("EVCHECK_DEBUG_REC") != "" {
+		for f, es := range edges {
+			for _, e := range es {
+				fmt.Fprintln(os.Stderr, "edge", f, "->", e.to, e.site != nil)
+			}
+		}
+		for f := range bounded {
+			fmt.Fprintln(os.Stderr, "bounded", f)
+		}
+	}
+	if len(bounded) == 0 {
+		return false, ""
+	}
+	// functions that lie on a cycle of the reduced graph
+	reach := func(from, to *ssa.Function, avoid map[*ssa.Function]int) bool {
+		seen := map[*ssa.Function]bool{}
+		var w func(x *ssa.Function) bool
+		w = func(x *ssa.Function) bool {
+			for _, e := range edges[x] {
+				if _, skip := avoid[e.to]; skip && e.to != to {
+					continue
+				}
+				if e.to == to {
+					return true
+				}
+				if !seen[e.to] {
+					seen[e.to] = true
+					if w(e.to) {
+						return true
+					}
+				}
+			}
+			return false
+		}
+		return w(from)
+	}
+	onCycle := map[*ssa.Function]bool{}
+	for _, f := range comp {
+		if reach(f, f, nil) {
+			onCycle[f] = true
+		}
+	}
+	if len(onCycle) == 0 {
+		return true, "no cycle remains once the interface calls that cannot reach the component (type switch, hash keys) are removed"
+	}
+	// every remaining cycle passes a bounded function
+	for f := range onCycle {
+		if _, isB := bounded[f]; isB {
+			continue
+		}
+		if reach(f, f, bounded) {
+			return false, ""
+		}
+	}
+	// depth is handed on along every edge between functions on cycles
+	depthParam := func(f *ssa.Function) *ssa.Parameter {
+		if i, ok := bounded[f]; ok {
+			return f.Params[i]
+		}
+		var own *ssa.Parameter
+		for _, prm := range f.Params {
+			if isInt(prm.Type()) {
+				own = prm
+			}
+		}
+		return own
+	}
+	for f := range onCycle {
+		own := depthParam(f)
+		for _, e := range edges[f] {
+			if !onCycle[e.to] {
+				continue
+			}
+			if e.site == nil || own == nil || e.site.Common().IsInvoke() {
+				return false, ""
+			}
+			tp := depthParam(e.to)
+			if tp == nil {
+				return false, ""
+			}
+			idx := -1
+			for i, q := range e.to.Params {
+				if q == tp {
+					idx = i
+				}
+			}
+			args := e.site.Common().Args
+			if idx < 0 || idx >= len(args) {
+				return false, ""
+			}
+			k := int64(-1)
+			if args[idx] == ssa.Value(own) {
+				k = 0
+			} else if bo, ok := args[idx].(*ssa.BinOp); ok && bo.Op == token.ADD && bo.X == ssa.Value(own) {
+				if kk, ok := constInt(bo.Y); ok {
+					k = kk
+				}
+			}
+			_, fromBounded := bounded[f]
+			if k < 0 || (fromBounded && k < 1) {
+				return false, ""
+			}
+		}
+	}
+	var names []string
+	for f := range bounded {
+		names = append(names, p.FnName(f))
+	}
+	sort.Strings(names)
+	return true, "the recursion carries its depth as a parameter, compared with a constant in " + strings.Join(names, ", ") + "; every call on a cycle hands the depth on, plus one from those functions (interface calls that cannot reach the component are disregarded)"
+}
+
+// hashKeyNever: v is the key of a hash entry, every key stored in an entry has
+// been asserted to be hashable, and t is not a hashable type — the interface
+// call on v cannot reach a method of t.
+func hashKeyNever(p *Program, v ssa.Value, t types.Type) bool {
+	isKey := false
+	var fv ssa.Value = v
+	if ld, ok := v.(*ssa.UnOp); ok && ld.Op == token.MUL {
+		fv = ld.X
+	}
+	if owner, fld, ok := fieldOf(fv); ok && owner != nil && owner.Obj().Name() == "HashPair" && fld == "Key" {
+		isKey = true
+	}
+	if !isKey {
+		return false
+	}
+	// t must not have a HashKey method
+	ms := types.NewMethodSet(t)
+	for i := 0; i < ms.Len(); i++ {
+		if ms.At(i).Obj().Name() == "HashKey" {
+			return false
+		}
+	}
+	// every entry that is put into a hash has a key that was asserted to be
+	// Hashable: keys are only written into local entries, and a local entry
+	// is only stored into a map where the assertion has succeeded
+	keyOf := map[*ssa.Alloc]ssa.Value{}
+	for _, fn := range p.LibFns {
+		for _, b := range fn.Blocks {
+			for _, ins := range b.Instrs {
+				st, ok := ins.(*ssa.Store)
+				if !ok {
+					continue
+				}
+				owner, fld, ok := fieldOf(st.Addr)
+				if !ok || owner == nil || owner.Obj().Name() != "HashPair" || fld != "Key" {
+					continue
+				}
+				al, ok := st.Addr.(*ssa.FieldAddr).X.(*ssa.Alloc)
+				if !ok {
+					return false
+				}
+				if _, dup := keyOf[al]; dup {
+					return false
+				}
+				keyOf[al] = st.Val
+			}
+		}
+	}
+	n := 0
+	for _, fn := range p.LibFns {
+		for _, b := range fn.Blocks {
+			for _, ins := range b.Instrs {
+				mu, ok := ins.(*ssa.MapUpdate)
+				if !ok {
+					continue
+				}
+				mt, ok := mu.Map.Type().Underlying().(*types.Map)
+				if !ok {
+					continue
+				}
+				if nm, ok := types.Unalias(mt.Elem()).(*types.Named); !ok || nm.Obj().Name() != "HashPair" {
+					continue
+				}
+				n++
+				ld, ok := mu.Value.(*ssa.UnOp)
+				if !ok {
+					return false
+				}
+				al, ok := ld.X.(*ssa.Alloc)
+				if !ok {
+					return false
+				}
+				key := keyOf[al]
+				if key == nil || key.Referrers() == nil {
+					return false
+				}
+				asserted := false
+				for _, ref := range *key.Referrers() {
+					ta, ok := ref.(*ssa.TypeAssert)
+					if !ok || !isNamed(ta.AssertedType, "object", "Hashable") {
+						continue
+					}
+					if !ta.CommaOk {
+						if ta.Block() == b || ta.Block().Dominates(b) {
+							asserted = true
+						}
+						continue
+					}
+					for _, r2 := range *ta.Referrers() {
+						ex, ok := r2.(*ssa.Extract)
+						if !ok || ex.Index != 1 {
+							continue
+						}
+						for _, r3 := range *ex.Referrers() {
+							if iff, ok := r3.(*ssa.If); ok {
+								hit := iff.Block().Succs[0]
+								if hit == b || hit.Dominates(b) {
+									asserted = true
+								}
+							}
+						}
+					}
+				}
+				if !asserted {
+					return false
+				}
+			}
+		}
+	}
+	return n > 0
+}
+
+// typeRuledOut: on every path to block b a comma-ok assertion of v to type t
+// has failed (the block lies on the false side of `_, ok := v.(t)`).
+func typeRuledOut(v ssa.Value, b *ssa.BasicBlock, t types.Type) bool {
+	if v.Referrers() == nil {
+		return false
+	}
+	for _, ref := range *v.Referrers() {
+		ta, ok := ref.(*ssa.TypeAssert)
+		if !ok || !ta.CommaOk || !types.Identical(ta.AssertedType, t) {
+			continue
+		}
+		for _, r2 := range *ta.Referrers() {
+			ex, ok := r2.(*ssa.Extract)
+			if !ok || ex.Index != 1 {
+				continue
+			}
+			for _, r3 := range *ex.Referrers() {
+				iff, ok := r3.(*ssa.If)
+				if !ok {
+					continue
+				}
+				miss := iff.Block().Succs[1]
+				if miss == b || miss.Dominates(b) {
+					return true
+				}
+			}
+		}
+	}
+	return false
+}
+
+// hasOnPathSet: the recursion follows references of the host's data, and a
+// function of the component keeps the set of things it is in the middle of
+// converting: it returns without recursing when the thing is already in the
+// set, inserts it before recursing and removes it by a deferred delete.  A
+// cyclic structure is then followed once around, not for ever.
+func hasOnPathSet(p *Program, comp []*ssa.Function) (bool, string) {
+	in := map[*ssa.Function]bool{}
+	for _, f := range comp {
+		in[f] = true
+	}
+	guarded := map[*ssa.Function]bool{}
+	for _, f := range comp {
+		var setField string
+		insertDominates := false
+		var insert *ssa.MapUpdate
+		for _, b := range f.Blocks {
+			for _, ins := range b.Instrs {
+				if mu, ok := ins.(*ssa.MapUpdate); ok {
+					if ld, ok := mu.Map.(*ssa.UnOp); ok {
+						if k := fieldKey(ld.X); k != "" {
+							if c, ok := mu.Value.(*ssa.Const); ok && c.Value != nil && c.Value.Kind() == constant.Bool && constant.BoolVal(c.Value) {
+								setField, insert = k, mu
+							}
+						}
+					}
+				}
+			}
+		}
+		if insert == nil {
+			continue
+		}
+		// test before: a lookup in the same set guarding a return without recursion
+		tested := false
+		for _, b := range f.Blocks {
+			for _, ins := range b.Instrs {
+				lk, ok := ins.(*ssa.Lookup)
+				if !ok {
+					continue
+				}
+				ld, ok := lk.X.(*ssa.UnOp)
+				if !ok || fieldKey(ld.X) != setField {
+					continue
+				}
+				for _, ref := range *lk.Referrers() {
+					iff, ok := ref.(*ssa.If)
+					if !ok {
+						continue
+					}
+					stop := iff.Block().Succs[0]
+					if _, isRet := terminator(stop).(*ssa.Return); isRet && dominatesInstr(lk, insert) {
+						rec := false
+						for _, i2 := range stop.Instrs {
+							if cc := callOf(i2); cc != nil && cc.StaticCallee() != nil && in[cc.StaticCallee()] {
+								rec = true
+							}
+						}
+						if !rec {
+							tested = true
+						}
+					}
+				}
+			}
+		}
+		// removal: a deferred delete on the same set
+		removed := false
+		for _, b := range f.Blocks {
+			for _, ins := range b.Instrs {
+				d, ok := ins.(*ssa.Defer)
+				if !ok {
+					continue
+				}
+				if bi, ok := d.Call.Value.(*ssa.Builtin); ok && bi.Name() == "delete" {
+					if ld, ok := d.Call.Args[0].(*ssa.UnOp); ok && fieldKey(ld.X) == setField {
+						removed = true
+					}
+				}
+			}
+		}
+		// the insert precedes every call back into the component
+		insertDominates = true
+		for _, b := range f.Blocks {
+			for _, ins := range b.Instrs {
+				if cc := callOf(ins); cc != nil && cc.StaticCallee() != nil && in[cc.StaticCallee()] {
+					if !dominatesInstr(insert, ins) {
+						insertDominates = false
+					}
+				}
+			}
+		}
+		if tested && removed && insertDominates {
+			guarded[f] = true
+		}
+	}
+	if len(guarded) == 0 {
+		return false, ""
+	}
+	// every cycle of the component passes a guarded function: remove them and
+	// look for a remaining cycle
+	cg := p.CallGraph()
+	color := map[*ssa.Function]int{}
+	var cyc func(f *ssa.Function) bool
+	cyc = func(f *ssa.Function) bool {
+		color[f] = 1
+		if n := cg.Nodes[f]; n != nil {
+			for _, e := range n.Out {
+				c := e.Callee.Func
+				if !in[c] || guarded[c] {
+					continue
+				}
+				if color[c] == 1 {
+					return true
+				}
+				if color[c] == 0 && cyc(c) {
+					return true
+				}
+			}
+		}
+		color[f] = 2
+		return false
+	}
+	for _, f := range comp {
+		if !guarded[f] && color[f] == 0 && cyc(f) {
+			return false, ""
+		}
+	}
+	var names []string
+	for f := range guarded {
+		names = append(names, p.FnName(f))
+	}
+	sort.Strings(names)
+	return true, strings.Join(names, ", ") + " keep the set of host values on the current path (tested first, inserted before recursing, removed by a deferred delete): a value that contains itself is followed once; every cycle of the component passes one of them"
+}
+
 func ruleRecursion(p *Program, r *Reporter) {
 	a := needAnchors(p, r)
 	if a == nil {
@@ -764,6 +1253,14 @@ func ruleRecursion(p *Program, r *Reporter) {
 			r.OkNT(key, p.Pos(comp[0].Pos()), "depth guard: "+why)
 			continue
 		}
+		if ok, why := hasDepthParam(p, comp); ok {
+			r.OkNT(key, p.Pos(comp[0].Pos()), "depth guard: "+why)
+			continue
+		}
+		if ok, why := hasOnPathSet(p, comp); ok {
+			r.OkNT(key, p.Pos(comp[0].Pos()), "cycle guard: "+why)
+			continue
+		}
 		if why, ok := recursionBoundedBy[key]; ok {
 			r.OkNT(key, p.Pos(comp[0].Pos()), "depth bounded by a guarded structure: "+why)
 			continue
@@ -772,7 +1269,7 @@ func ruleRecursion(p *Program, r *Reporter) {
 			r.OkNT(key, p.Pos(comp[0].Pos()), "structural recursion over a syntax tree: every recursive call descends into a field of the node it was given, so the depth is at most the depth of the tree, which only the parser builds (its own unguarded recursion is reported separately; these frames are smaller than the parser's)")
 			continue
 		}
-		r.Fail(key, p.Pos(comp[0].Pos()), "this recursive component is reachable from the API and has no depth guard: input that nests deeply enough overflows the Go stack, which is fatal for the host process and cannot be recovered")
+		r.Fail(key, p.Pos(comp[0].Pos()), "this recursive component is reachable from the API and has no depth guard: input that nests deeply enough overflows the Go stack, which is fatal for the host process and cannot be recovered (members: "+strings.Join(names, ", ")+")")
 	}
 }
 
@@ -1862,4 +2359,76 @@ func ruleCtxFlow(p *Program, r *Reporter) {
 	// the machine the context is given to is the one stored in Eval.machine
 	// and the one Execute runs
 	r.Check(len(callsTo(a.execute, a.vmRun)) == 1, "Execute runs the prepared machine", p.Pos(a.execute.Pos()), "", "Execute does not run the machine exactly once")
+	// every context the evaluator installs in the machine is the host's, or is
+	// derived from the host's and taken back on every exit
+	isHostCtx := func(v ssa.Value, fn *ssa.Function) bool {
+		if u, ok := v.(*ssa.UnOp); ok && fieldKey(u.X) == "evalfilter.Eval.context" {
+			return true
+		}
+		if prm, ok := v.(*ssa.Parameter); ok {
+			for _, ref := range *prm.Referrers() {
+				if st, ok := ref.(*ssa.Store); ok && st.Val == v && fieldKey(st.Addr) == "evalfilter.Eval.context" {
+					return true
+				}
+			}
+		}
+		return false
+	}
+	var derivedFromHost func(v ssa.Value, fn *ssa.Function, d int) bool
+	derivedFromHost = func(v ssa.Value, fn *ssa.Function, d int) bool {
+		if d > 4 {
+			return false
+		}
+		if isHostCtx(v, fn) {
+			return true
+		}
+		if ex, ok := v.(*ssa.Extract); ok {
+			v = ex.Tuple
+		}
+		if c, ok := v.(*ssa.Call); ok && c.Call.StaticCallee() != nil && fnPkg(c.Call.StaticCallee()) != nil && fnPkg(c.Call.StaticCallee()).Pkg.Path() == "context" && strings.HasPrefix(c.Call.StaticCallee().Name(), "With") && len(c.Call.Args) > 0 {
+			return derivedFromHost(c.Call.Args[0], fn, d+1)
+		}
+		return false
+	}
+	for _, fn := range p.LibFns {
+		if fnPkg(fn).Pkg.Path() == Mod+"/vm" {
+			continue
+		}
+		nth := 0
+		for _, b := range fn.Blocks {
+			for _, ins := range b.Instrs {
+				cc := callOf(ins)
+				if cc == nil || cc.StaticCallee() != vmSet || len(cc.Args) < 2 {
+					continue
+				}
+				if _, isDefer := ins.(*ssa.Defer); isDefer && isHostCtx(cc.Args[1], fn) {
+					continue // the restoring defer itself
+				}
+				nth++
+				key := fmt.Sprintf("%s/context %d given to the machine is the host's", p.FnName(fn), nth)
+				arg := cc.Args[1]
+				switch {
+				case isHostCtx(arg, fn):
+					r.OkNT(key, p.Pos(ins.Pos()), "the evaluator's own context")
+				case derivedFromHost(arg, fn, 0):
+					// temporary: a deferred call must put the host's context back
+					restored := false
+					for _, b2 := range fn.Blocks {
+						for _, i2 := range b2.Instrs {
+							if d, ok := i2.(*ssa.Defer); ok && d.Call.StaticCallee() == vmSet && len(d.Call.Args) >= 2 && isHostCtx(d.Call.Args[1], fn) {
+								restored = true
+							}
+						}
+					}
+					if restored {
+						r.OkNT(key, p.Pos(ins.Pos()), "derived from the host's context; a deferred call puts the host's back")
+					} else {
+						r.Fail(key, p.Pos(ins.Pos()), "a context derived for this run is installed in the machine and not taken back by a deferred call: when the run ends by a panic (recovered at the API) the machine keeps the run's context — cancelled by then — and every later run fails with a time-out nobody asked for")
+					}
+				default:
+					r.Fail(key, p.Pos(ins.Pos()), "the machine is given a context that is not the host's and is not derived from it: while it is installed the host's deadline and cancellation are not seen by the interpreter loop")
+				}
+			}
+		}
+	}
 }
